@@ -232,6 +232,8 @@ SCRIPTED = [
     ("odd_dir_names", [], [[["mvdir", "dq?", "dq_moved"]], [["mvdir", "dq_moved", "dq?"]]]),
     ("odd_dir_names", [], [[["mvdir", "ds*", "ds_moved"], ["mvdir", "d[b]", "db_moved"]], [["set", "s1.txt", "b"]]]),
     ("odd_dir_names", [], [[["rmdir", "dq?"]], [["mkdir", "dq?"], ["set", "dq?/d1.txt", "b"]]]),
+    # F30: a matching directory created together with its (watched for, absent) parent
+    ("sglob_dirs", [["rmdir", "data"]], [[["set", "data/b/y.txt", "b"]], [["mkdir", "data/c"]], [["rmdir", "data/b"]]], None, {"keep_going": True}),
 ]
 
 
@@ -243,6 +245,8 @@ def scripted_cases(seed):
         # one hash worker: the updates of a batch arrive in queue order (sorted paths when
         # watching, table order at startup); two workers: in an order chosen by the schedule
         cfg = {"njob": 1 if j < len(SCRIPTED) else 2, "resources": "gpu:2,tpu:2"}
+        if len(item) > 4:
+            cfg.update(item[4])
         proj = SHAPES[shape]()
         phases = [initial_phase(proj, cfg=cfg, seed=seed + j)]
         if between:
